@@ -47,6 +47,8 @@ def gen_queries(rng, pats):
     for p in pats:
         base = p.split("*")[0]
         qs += [base, base.rstrip("/"), base + "/", base + "x", base + "x/y", base + "/x", base[:-1] if len(base) > 1 else base, base + "é", base.upper()]
+        # the leading slash missing or repeated, in front of the pattern itself and of something below it
+        qs += [base[1:], base[1:] + "x", base[1:] + "x/y", "/" + base, "/" + base + "x", "//" + base + "x/y"]
     for _ in range(6):
         qs.append(gen_path(rng) + rng.choice(["", "", "/", "x", "/a/b/c"]))
     return qs
@@ -56,7 +58,7 @@ def run(chk):
     quick = chk.tier == "quick"
     chk.rule = ("random builder programs (route with exact and catch-all paths, add_rpc_service over 4 service names, route_layer, nested merge; "
                 "conflicting and invalid routes included and compared as such) and per program ~40 route strings: registered paths, their prefixes / "
-                "extensions / trailing-slash variants, empty, non-ASCII, 10 kB, ':' and '*' characters; distinct = case text; non-trivial = the table was "
+                "extensions / trailing-slash variants / variants with the leading slash missing or repeated, empty, non-ASCII, 10 kB, ':' and '*' characters; distinct = case text; non-trivial = the table was "
                 "accepted and at least one query hit a route and one missed")
     if not chk.prepare():
         return
